@@ -231,6 +231,53 @@ func (prop) Run(t *testing.T, tape *kernel.Tape, sc kernel.Scenario) *kernel.Res
 	if !nilBody {
 		req.Body = st
 	}
+	// other requests of the same process: one served to its end before (warm-up), one alive at the same time (sibling)
+	var sib *http.Request
+	var sibData []byte
+	if sc.Name != "sweep" {
+		mk := func(name string, n int) (*http.Request, []byte) {
+			data := bytes.ToUpper(pattern(n))
+			r := &http.Request{Method: "POST", Header: http.Header{}, ContentLength: -1}
+			r.Body = kernel.NewStream(env, name, data)
+			return r, data
+		}
+		if tape.Bool(3, "warm-up-request") {
+			env.Probe("warm-up-request")
+			w, _ := mk("warmup", 1+tape.Choose(6000, "warmup-len"))
+			if pm := kernel.Catch(func() {
+				runtime.HasBody(w)
+				_, _ = io.Copy(io.Discard, w.Body)
+				_ = w.Body.Close()
+			}); pm != "" {
+				env.Violate("C17/panic", "warm-up", "serving an earlier request panicked: %s", pm)
+			}
+		}
+		if tape.Bool(3, "sibling-request") {
+			env.Probe("sibling-request")
+			sib, sibData = mk("sibling", 1+tape.Choose(6000, "sibling-len"))
+			var has bool
+			if pm := kernel.Catch(func() { has = runtime.HasBody(sib) }); pm != "" {
+				env.Violate("C17/panic", "sibling", "probing a second request panicked: %s", pm)
+				sib = nil
+			} else if !has {
+				env.Violate("C17/hasbody-wrong", "sibling", "a second request with %d body bytes was reported to have no body", len(sibData))
+			}
+		}
+	}
+	defer func() {
+		if sib == nil {
+			return
+		}
+		var got []byte
+		var err error
+		if pm := kernel.Catch(func() { got, err = io.ReadAll(sib.Body) }); pm != "" {
+			env.Violate("C17/panic", "sibling", "reading a second request's body panicked: %s", pm)
+		} else if err != nil || !bytes.Equal(got, sibData) {
+			env.Violate("C17/bytes-mismatch", "another-request", "a second request alive at the same time read %d bytes (err %v) that are not its own %d bytes", len(got), err, len(sibData))
+		}
+		res.Viol = nil
+		res.FromEnv(env)
+	}()
 	m := &model{data: st.Data, term: st.Term}
 	if m.term == nil {
 		m.term = io.EOF
